@@ -239,9 +239,9 @@ func failureSig(o *outcome) string {
 // errClass maps compiler output to a coarse, input-independent class.
 func errClass(msg string) string {
 	best, at := "", 0
-	for _, c := range []string{"import cycle not allowed", "redeclared", "duplicate", "undefined", "ambiguous selector",
+	for _, c := range []string{"import cycle not allowed", "redeclared", "already declared", "duplicate", "undefined", "ambiguous selector",
 		"imported and not used", "declared and not used", "field and method with the same name", "missing return",
-		"cannot use", "invalid recursive type", "not exported", "syntax error", "custom typeref support files"} {
+		"cannot use", "is not a type", "invalid recursive type", "not exported", "syntax error", "custom typeref support files"} {
 		if i := strings.Index(msg, c); i >= 0 && (best == "" || i < at) {
 			best, at = c, i
 		}
